@@ -26,11 +26,11 @@ EXPLANATION = (
 AUDIT = [
     (r"^<netconf::message::rpc::error::Error as netconf::message::ReadXml>::read_xml::\{closure#\d+\}$", "call:panicking::panic", 3, "infallible-closure",
      "the unreachable!() closures are only invoked with an Infallible error"),
-    (r"^<netconf::transport::(tls|junos_local)::Receiver as netconf::transport::RecvHandle>::recv::\{closure#0\}::\{closure#0\}$", "call:index::index", 2, "c06",
+    (r"^<netconf::transport::(tls|junos_local)::Receiver as netconf::transport::RecvHandle>::recv(::\{closure#\d+\})+$", "call:index::index", 6, "c06",
      "&self.buf[searched..]: searched is 0 or buf.len() - k (C06/R1), the buffer only grows within a call"),
-    (r"^<netconf::transport::(tls|junos_local)::Receiver as netconf::transport::RecvHandle>::recv::\{closure#0\}::\{closure#0\}$", "assert:Overflow", 6, "c06",
+    (r"^<netconf::transport::(tls|junos_local)::Receiver as netconf::transport::RecvHandle>::recv(::\{closure#\d+\})+$", "assert:Overflow", 12, "c06",
      "searched + index + MARKER.len() <= buf.len() (C06/R2); MARKER.len() - 1 is the constant 5"),
-    (r"^<netconf::transport::(tls|junos_local)::Receiver as netconf::transport::RecvHandle>::recv::\{closure#0\}::\{closure#0\}$", "call:BytesMut::split_to", 2, "c06",
+    (r"^<netconf::transport::(tls|junos_local)::Receiver as netconf::transport::RecvHandle>::recv(::\{closure#\d+\})+$", "call:BytesMut::split_to", 4, "c06",
      "split position is inside the buffer: it ends at a marker found in it (C06/R2)"),
     (r"^netconf::transport::(tls|junos_local)::Receiver::new$", "assert:Overflow", 2, "const", "1 << 10 is a constant"),
     (r"^netconf::transport::ssh::Ssh::connect::\{closure#0\}::\{closure#0\}::\{closure#0\}$", "assert:Overflow", 1, "c06", "index + MARKER.len() <= in_buf.len() (C06/R2)"),
@@ -78,17 +78,20 @@ def r4_envelope_only(chk, fx):
     if b is None:
         raise F.AnchorLost("PartialReply::read_xml not found")
     chk.analysed(n)
-    skips = [c for c in b.calls() if c.is_fn("read_to_end") and not c.macro]
+    # the envelope scan may live in private helpers of the reader (analysed with it)
+    from . import c08
+    bodies = [b] + c08.reader_helpers(fx, b)
+    skips = [(bb, c) for bb in bodies for c in bb.calls() if c.is_fn("read_to_end") and not c.macro]
     chk.floor("C14/R4 PartialReply body skips", len(skips), 1)
-    tries = [c for c in b.calls() if c.is_fn("Try::branch")]
-    for c in skips:
-        t = b.forward_taint([c.dest["l"]])
+    for (bb, c) in skips:
+        tries = [x for x in bb.calls() if x.is_fn("Try::branch")]
+        t = bb.forward_taint([c.dest["l"]])
         hit = [x for x in tries if any(F.op_base(a) in t for a in x.args)]
         chk.instance("C14/R4", "first parse phase does not fail on the reply body: the result of skipping it (read_to_end) is not `?`-propagated",
                      n, c.loc(), holds=not hit, key="C14/R4 PartialReply::read_xml body-error-propagated",
                      detail=None if not hit else "a truncated / malformed body of a reply with a readable message-id now fails in whichever caller "
                      "is reading the transport, not in the request that owns the reply")
-    content = [c for c in b.calls() if c.is_fn("read_text", "ReadXml::read_xml", "read_event_into") and not c.macro]
+    content = [c for bb in bodies for c in bb.calls() if c.is_fn("read_text", "ReadXml::read_xml", "read_event_into") and not c.macro]
     chk.instance("C14/R4", "first parse phase reads nothing but the envelope (no read_text / nested read_xml of the body)", n, None,
                  holds=not content, key="C14/R4 PartialReply::read_xml reads-body")
     # the body is kept verbatim for the second phase
@@ -154,8 +157,10 @@ def r1_inventory(ctx, chk, fx):
             # a framing helper (search the buffer for the marker, split the message off): the same sites as in the receivers, covered by the same
             # C06 invariants — provided the body really is such a helper (it searches with the Finder and splits), whatever its name
             hb = fx.mir[fn]
-            if hb.calls_to("memmem::Finder::<'n>::find") and hb.calls_to("BytesMut::split_to"):
-                row = (re.escape(fn) + "$", kind, {"assert:Overflow": 3, "call:index::index": 1, "call:BytesMut::split_to": 1}[kind], "c06",
+            parent = fx.mir.get(fn.split("::{closure")[0]) or hb
+            if (hb.calls_to("memmem::Finder::<'n>::find") and hb.calls_to("BytesMut::split_to")) or \
+                    (parent.calls_to("memmem::Finder::<'n>::find") and parent.calls_to("BytesMut::split_to")):
+                row = (re.escape(fn) + "$", kind, {"assert:Overflow": 4, "call:index::index": 2, "call:BytesMut::split_to": 2}[kind], "c06",
                        "framing helper: search offset <= buf.len() (C06/R1), split position ends at a marker found in the buffer (C06/R2)")
         fkey = T.strip_generics(fn)
         if row is None:
